@@ -133,7 +133,7 @@ pub fn scenario(sub: u64) -> Option<(String, u64, usize)> {
         let l = len_of(&rx);
         if l != last.0 {
             last = (l, Instant::now());
-        } else if l >= n || last.1.elapsed() > Duration::from_millis(400) {
+        } else if l >= n || last.1.elapsed() > Duration::from_millis(3000) {
             break;
         }
     }
